@@ -247,6 +247,54 @@ Definition resolve (ev : env) (r : ref) : outcome typeref :=
        end.
 
 (* ------------------------------------------------------------------ topics *)
+(* ------------------------------------------------------------------ list methods *)
+(* service.go checkListMethod (fix cec4e3a): a method whose request holds a field of type
+   j5.list.v1.QueryRequest - object reference written with that package, or with an import
+   prefix that expands to it (importMap.expand: no lookup of the type) - is a list method; its
+   response must exist and have exactly one array, whose items are objects (inline or
+   referenced).  Anything else is an error of the source file. *)
+Definition list_pkg : str := b "j5.list.v1".
+Definition query_request : str := b "QueryRequest".
+
+Definition is_query_ref (this : str) (im : list (str * str)) (r : ref) : bool :=
+  str_eqb (r_name r) query_request &&
+  (if match r_pkg r with [] => true | _ => false end || str_eqb (r_pkg r) this
+   then str_eqb this list_pkg
+   else str_eqb (r_pkg r) list_pkg ||
+        match assoc (r_pkg r) im with Some full => str_eqb full list_pkg | None => false end).
+
+Fixpoint has_query (this : str) (im : list (str * str)) (ps : props) : bool :=
+  match ps with
+  | PNil => false
+  | PCons p r => match prop_field p with FObjRef rf => is_query_ref this im rf | _ => false end || has_query this im r
+  end.
+
+Fixpoint array_items (ps : props) : list field :=
+  match ps with
+  | PNil => []
+  | PCons p r => match prop_field p with FArray it => it :: array_items r | _ => array_items r end
+  end.
+
+Definition list_method_ok (this : str) (im : list (str * str)) (m : method) : bool :=
+  if has_query this im (m_request m) then
+    match m_response m with
+    | None => false
+    | Some ps => match array_items ps with
+                 | [FObjRef _] | [FObjInline _ _] => true
+                 | _ => false
+                 end
+    end
+  else true.
+
+Definition lists_ok_elements (this : str) (im : list (str * str)) (els : list element) : bool :=
+  forallb (fun e => match e with EService s => forallb (list_method_ok this im) (sv_methods s) | _ => true end) els.
+
+Definition file_lists_ok (f : jfile) : bool :=
+  match import_map (jf_imports f) [] with
+  | Ok im => lists_ok_elements (j5s_pkg f) im (jf_elements f)
+  | _ => true
+  end.
+
 Definition virt_prop (name : str) (pkg ty : str) : property :=
   Property name true false (FObjRef (mkRef pkg ty)).
 Definition virt_request : props :=
